@@ -196,7 +196,7 @@ CHECKS = {
     },
     "C14": {
         "level": "exploration",
-        "rule": "rapid-generated cases: a generated chain-parameter set and chain; target stores pre-filled to generated heights (level or filter store lagging; from the same chain or from a competing branch); block / filter import files over a generated window (start 0 / 1 / next height / any, any end, occasionally different windows for the two files), write batch size 1-40, and one optional defect: wrong network magic, swapped header types, a header mutated in one rule at a position (relinked and re-mined), a flipped byte in either file, or the k-th database commit of the import failing. Oracle: on success both stores equal earlier contents ++ the files' headers up to the file end (all read methods, list model), the block chain passes the reference validator in full context, and a second import changes nothing; on failure all read methods work, every height holds the earlier or the file's entry, level stores stay level, nothing invalid was appended, and (level stores) a later correct import succeeds. Non-trivial = start height > 0, or stores at different heights, or a batch size not dividing the appended range, or an injected fault; distinct = distinct case JSON",
+        "rule": "rapid-generated cases: a generated chain-parameter set and chain; target stores pre-filled to generated heights (level or filter store lagging; from the same chain or from a competing branch); block / filter import files over a generated window (start 0 / 1 / next height / any, any end, occasionally different windows for the two files), write batch size 1-40, and one optional defect: wrong network magic, swapped header types, a header mutated in one rule at a position (relinked and re-mined), a flipped byte in either file, or the k-th database commit of the import failing. Oracle: on success both stores equal earlier contents ++ the files' headers up to the file end (all read methods, list model), the block chain passes the reference validator in full context, and a second import changes nothing; on failure all read methods work, every height holds the earlier or the file's entry, level stores stay level, nothing invalid was appended, and (level stores) a later correct import succeeds. Non-trivial = start height > 0, or stores at different heights, or a batch size not dividing the appended range, or an injected fault; distinct = distinct case JSON File write faults: in one case of twelve the n-th write (n = 1-4) to the block or the filter flat file fails after a generated number of bytes (0 ... the whole write); the import must then report failure and leave the stores as the failure rules demand.",
         "assumptions": [
             "the filter store may lag but never leads the block store (its index resolves heights through the block index)",
             "filter headers cannot be validated without the filters: the oracle expects the stores to hold the file's filter headers as written, defects included",
